@@ -10,8 +10,8 @@
    every reachable action after _rewind_action (F9 repaired); C08_delays, C08_program_order - what the
    semantics says about every trace.  Proofs in Proofs/ScriptRefine.v, ScriptSim.v, ScriptRun.v. *)
 From Coq Require Import List NArith ZArith Bool.
-From PM Require Import Base.Bytes Base.Outcome Gen.GenConsts Model.ScriptAst Model.Enqueue Model.Script Spec.ScriptSem
-  Proofs.ScriptProofs Proofs.ScriptRefine Proofs.ScriptSim Proofs.ScriptRun.
+From PM Require Import Base.Bytes Base.Outcome Gen.GenConsts Model.ScriptAst Model.Enqueue Model.Script Model.Device Spec.ScriptSem
+  Proofs.ScriptProofs Proofs.ScriptRefine Proofs.ScriptSim Proofs.ScriptRun Proofs.ScriptDevice.
 Import ListNotations.
 Local Open Scope Z_scope.
 
@@ -246,4 +246,42 @@ Example C08_fresh_start_example :
   end.
 Proof. vm_compute. repeat split. Qed.
 
+(* the round of the device loop (Model/Device.v pa_step = one iteration of the while loop of _process_action, which
+   R-DEV compares with the C after every pass) IS the step of [run]: on a connected device whose head action has not
+   timed out, pa_step performs exactly step1 on that action - same do..while round with the same fuel, same advance,
+   same device / store / events afterwards *)
+Theorem C08_device_round : forall (rmatch : text -> text -> option pmatch) (compress : list text -> text) (sc : bool)
+    now d store tmo plans act0 rest,
+  dv_acts d = act0 :: rest -> a_exec act0 <> [] ->
+  let stamp := match a_stamp act0 with Some t => t | None => now end in
+  let act := set_stamp (Some stamp) act0 in
+  (stamp + dv_timeout d <=? now) = false -> connected d = true ->
+  match step1 rmatch compress sc now (dv d) act store with
+  | Ok (Running, sd', a', store', o, evs) =>
+      (exists d' tmo' pl', pa_step rmatch compress sc now d store tmo plans = Ok (PaDone d' store' tmo' pl' evs)
+                           /\ dv d' = sd' /\ dv_acts d' = a' :: rest)
+      \/ (exists d' tmo', pa_step rmatch compress sc now d store tmo plans = Ok (PaNext d' store' tmo' evs)
+                          /\ dv d' = sd' /\ dv_acts d' = a' :: rest)
+  | Ok (Completed, sd', a', store', o, evs) =>
+      exists d' tmo' done, pa_step rmatch compress sc now d store tmo plans = Ok (PaNext d' store' tmo' (evs ++ done))
+                           /\ dv d' = sd' /\ dv_acts d' = rest
+  | Ok (Failed, sd', a', store', o, evs) =>
+      exists tmo', pa_step rmatch compress sc now d store tmo plans
+                   = fail_and_reconnect now (upd_sdev (fun _ => sd') d) a' rest store' tmo' plans evs
+  | Exit c x => pa_step rmatch compress sc now d store tmo plans = Exit c x
+  | Abort x => pa_step rmatch compress sc now d store tmo plans = Abort x
+  | MemErr x => pa_step rmatch compress sc now d store tmo plans = MemErr x
+  | Hang x => pa_step rmatch compress sc now d store tmo plans = Hang x
+  end.
+Proof. exact pa_step_is_step1. Qed.
+
+Definition toy_device : device := mkDevice toy_dev [] 5000000 0 DEV_CONNECTED true true [toy_action] 0 0 0 1 0 65536.
+Example C08_device_round_example :
+  match pa_step toy_match toy_compress false 10 toy_device [] None [] with
+  | Ok (PaDone d' _ _ _ evs) => sd_to (dv d') = bslit "sp1;" /\ evs = [EvSent (bslit "sp1;")] /\ length (dv_acts d') = 1%nat
+  | _ => False
+  end.
+Proof. vm_compute. repeat split. Qed.
+
 Print Assumptions C08_refines. Print Assumptions C08_fresh_start. Print Assumptions C08_delays. Print Assumptions C08_program_order.
+Print Assumptions C08_device_round.
